@@ -1,4 +1,6 @@
 import GoflowModel.Engine.Model
+import GoflowModel.Engine.Truncate
+import GoflowModel.Driver.Util
 /-
 Line protocol for the engine model:
 
@@ -182,6 +184,14 @@ def handle : List String → Option String
       let k ← parseResume call
       let s ← parseSession session
       some (showResult (resume a o orc s k))
+  | ["trunc", n, s] => do
+    let s ← Driver.decL s
+    some ("ok " ++ Driver.encL (Truncate.truncate s n.toNat!))
+  | ["trunce", n, s] => do
+    let s ← Driver.decL s
+    some (match Truncate.truncateEllipsis s n.toNat! with
+      | some t => "ok " ++ Driver.encL t
+      | none => "panic")
   | _ => none
 
 end GoflowModel.Driver.Engine
